@@ -61,15 +61,18 @@ UnbornActor ==
    curp |-> NoPayload, scr |-> <<>>, ip |-> 0, cbk |-> "none", tdl |-> -1, sdl |-> -1,
    inc |-> 0, inst |-> 0, st |-> <<>>, notif |-> "armed", shared |-> FALSE,
    result |-> "none", jh |-> "none", why |-> "none", svc |-> "none",
-   kids |-> <<>>, bn |-> 0, uc |-> 0]
+   kids |-> <<>>, bn |-> 0, uc |-> 0, ty |-> "0"]
 
-IdleClient == [stage |-> "idle", n |-> 0, op |-> "none", h |-> "none", m |-> NoM, ta |-> "none",
+NoArg == [ty |-> "0", nh |-> "none", nh2 |-> "none"]
+IdleClient == [stage |-> "idle", n |-> 0, op |-> "none", h |-> "none", m |-> NoM, ta |-> "none", arg |-> NoArg,
                hold |-> NoHold, dl |-> -1, last |-> [res |-> "none", pos |-> 0, inst |-> 0, a |-> "none"]]
 
 -----------------------------------------------------------------------------
 (* Derived: who keeps the mailbox channel open (channel.rs:73-133)          *)
 
-LiveH(a, kinds) == \E x \in DOMAIN hnd : hnd[x].a = a /\ hnd[x].kind \in kinds
+\* the registry entry is an Addr (service.rs:20-21)
+InRegistry(a) == \E T \in DOMAIN reg.ent : reg.ent[T] = a
+LiveH(a, kinds) == (\E x \in DOMAIN hnd : hnd[x].a = a /\ hnd[x].kind \in kinds) \/ ("addr" \in kinds /\ InRegistry(a))
 
 \* the Arc of the waiting closure has a strong holder
 TxHeld(a) == \/ LiveH(a, StrongKinds)
@@ -130,9 +133,9 @@ InitHist == [hb |-> [a \in Actor |-> <<>>], he |-> [a \in Actor |-> <<>>], cb |-
              stopAcc |-> [a \in Actor |-> FALSE], late |-> [a \in Actor |-> {}],
              oksend |-> [a \in Actor |-> {}], okcall |-> {}, errcall |-> {},
              ann |-> [a \in Actor |-> <<>>], ab |-> [a \in Actor |-> <<>>],
-             qry |-> {}, ctxr |-> {}, upr |-> {}, abt |-> {}, fires |-> {}, bcast |-> {}, upfail |-> [a \in Actor |-> FALSE], ninst |-> 0]
+             qry |-> {}, ctxr |-> {}, upr |-> {}, abt |-> {}, fires |-> {}, bcast |-> {}, regops |-> {}, upfail |-> [a \in Actor |-> FALSE], ninst |-> 0]
 
-InitReg == [ent |-> <<>>, lock |-> "free"]
+InitReg == [ent |-> <<>>, lock |-> "free", n |-> 0]
 
 Init0 == [act |-> [a \in Actor |-> UnbornActor], hnd |-> <<>>, cli |-> [c \in Client |-> IdleClient],
           rsp |-> <<>>, tmr |-> <<>>, reg |-> InitReg, now |-> 0, hst |-> InitHist]
@@ -170,7 +173,7 @@ Spawn(c, o) ==
   /\ act' = [act EXCEPT ![a] = [UnbornActor EXCEPT !.pc = "starting", !.cap = cf.cap, !.strat = cf.strat,
                                    !.stream = cf.stream, !.tmo = cf.tmo, !.failto = cf.failto,
                                    !.sscr = cf.sscr, !.pscr = cf.pscr, !.fscr = cf.fscr,
-                                   !.inst = hst.ninst + 1,
+                                   !.inst = hst.ninst + 1, !.ty = cf.ty,
                                    !.jh = IF cf.owning THEN "held" ELSE "none"]]
   /\ hnd' = (o.nh :> [kind |-> IF cf.owning THEN "owning" ELSE "addr", a |-> a, owner |-> c, polled |-> FALSE]) @@ hnd
   /\ cli' = Instant(c, o, Mid(c), Last("ok", 0, 0, a))
@@ -401,6 +404,108 @@ JoinReturn(c) ==
   /\ hst' = [hst EXCEPT !.ann = [@ EXCEPT ![a] = Append(@, <<"join", act[a].pc, act[a].result, IF val THEN "some" ELSE "none">>)]]
   /\ UNCHANGED <<act, hnd, rsp, tmr, reg, now>>
 
+\* ---- service registry (actor/service.rs).  Every operation yields once (the lock shim's scheduling
+\*      point), acquires the lock, and runs its check-then-act body while holding it.  Only
+\*      from_registry keeps the write lock across an await: the debug-build ping of a fresh instance.
+RegOps == {"from_registry", "setup", "register", "replace", "unregister", "already_running"}
+RegSlot(n) == "r" \o ToString(n)
+SvcRunning(a) == IF "D1" \in Dev THEN ~act[a].shared ELSE act[a].notif = "armed"
+ServiceCfgS == <<<<Eff("yield", 0, "")>>>>
+ServiceCfgP == <<Eff("yield", 0, "")>>
+
+RegIssue(c, o) ==
+  LET x == o.h  needs == o.op \in {"register", "replace"} IN
+  /\ CanIssue(c) /\ o.op \in RegOps
+  /\ (needs => (Owns(c, x) /\ hnd[x].kind = "addr"))
+  /\ cli' = [Began(c, o, Mid(c), IF needs THEN hnd[x].a ELSE "none", "reglock",
+                    IF needs THEN [tx |-> TRUE, fo |-> TRUE, raw |-> FALSE] ELSE NoHold)       \* the call owns the Addr it consumed
+              EXCEPT ![c].arg = [ty |-> IF needs THEN act[hnd[x].a].ty ELSE o.ty, nh |-> o.nh, nh2 |-> o.nh2]]
+  /\ hnd' = IF needs THEN [y \in DOMAIN hnd \ {x} |-> hnd[y]] ELSE hnd
+  /\ UNCHANGED <<act, rsp, tmr, reg, now, hst>>
+
+NewH(H, name, a, c) == IF name = "none" THEN H ELSE (name :> [kind |-> "addr", a |-> a, owner |-> c, polled |-> FALSE]) @@ H
+RegLockFree(c) == reg.lock = "free"
+RegBody(c) ==
+  LET op == cli[c].op  T == cli[c].arg.ty  nh == cli[c].arg.nh  nh2 == cli[c].arg.nh2
+      has == T \in DOMAIN reg.ent
+      old == IF has THEN reg.ent[T] ELSE "none"
+      m == cli[c].m
+      Log(res, a) == [hst EXCEPT !.regops = @ \cup {<<op, T, res, a, old, IF has THEN act[old].notif = "armed" ELSE FALSE>>}]
+  IN
+  /\ cli[c].stage = "reglock" /\ RegLockFree(c)
+  /\ CASE op \in {"from_registry", "setup"} ->
+            IF has /\ SvcRunning(old)
+            THEN /\ hnd' = IF op = "setup" THEN hnd ELSE NewH(hnd, nh, old, c)
+                 /\ cli' = Finished(cli, c, Last("ok", 0, 0, old))
+                 /\ hst' = Log("hit", old)
+                 /\ UNCHANGED <<act, rsp, reg>>
+            ELSE \* spawn a fresh Default instance, register it (dropping a dead entry), ping it under the lock
+                 LET r == RegSlot(reg.n + 1) IN
+                 /\ r \in Actor /\ act[r].pc = "unborn"
+                 /\ act' = [act EXCEPT ![r] = Enq([UnbornActor EXCEPT !.pc = "starting", !.inst = hst.ninst + 1, !.ty = T,
+                                                                        !.sscr = ServiceCfgS, !.pscr = ServiceCfgP],
+                                                   [k |-> "task", m |-> m, rs |-> "ping", scr |-> <<>>, src |-> "mailbox"], DEAD)]
+                 /\ rsp' = (m :> [st |-> "pending", pos |-> 0, inst |-> 0, a |-> r]) @@ rsp
+                 /\ reg' = [reg EXCEPT !.ent = (T :> r) @@ @, !.lock = c, !.n = @ + 1]
+                 /\ cli' = [cli EXCEPT ![c] = [@ EXCEPT !.stage = "regping", !.ta = r, !.hold = [tx |-> TRUE, fo |-> TRUE, raw |-> FALSE]]]
+                 /\ hst' = [Log("spawn", r) EXCEPT !.ninst = @ + 1]
+                 /\ hnd' = hnd
+       [] op = "register" ->
+            LET a0 == cli[c].ta IN
+            IF has /\ ~(IF "D1" \in Dev THEN act[old].shared ELSE act[old].notif # "armed")
+            THEN \* still running: error, registry unchanged (the consumed Addr is dropped)
+                 /\ cli' = Finished(cli, c, Last("err", 0, 0, a0))
+                 /\ hst' = Log("err", a0)
+                 /\ UNCHANGED <<act, hnd, rsp, reg>>
+            ELSE /\ reg' = [reg EXCEPT !.ent = (T :> a0) @@ @]
+                 /\ hnd' = NewH(IF has THEN NewH(hnd, nh2, old, c) ELSE hnd, nh, a0, c)
+                 /\ cli' = Finished(cli, c, Last(IF has THEN "some" ELSE "ok", 0, 0, a0))
+                 /\ hst' = Log("ok", a0)
+                 /\ UNCHANGED <<act, rsp>>
+       [] op = "replace" ->
+            LET a0 == cli[c].ta IN
+            /\ reg' = [reg EXCEPT !.ent = (T :> a0) @@ @]
+            /\ hnd' = IF has THEN NewH(hnd, nh2, old, c) ELSE hnd
+            /\ cli' = Finished(cli, c, Last(IF has THEN "some" ELSE "none", 0, 0, IF has THEN old ELSE a0))
+            /\ hst' = Log("ok", a0)
+            /\ UNCHANGED <<act, rsp>>
+       [] op = "unregister" ->
+            /\ reg' = [reg EXCEPT !.ent = [U \in DOMAIN reg.ent \ {T} |-> reg.ent[U]]]
+            /\ hnd' = IF has THEN NewH(hnd, nh, old, c) ELSE hnd
+            /\ cli' = Finished(cli, c, Last(IF has THEN "some" ELSE "none", 0, 0, old))
+            /\ hst' = Log("ok", old)
+            /\ UNCHANGED <<act, rsp>>
+       [] op = "already_running" ->
+            \* intended: None / Some(false) / Some(true) for unregistered / terminated / alive.  D4: maps Addr::stopped
+            LET alive == has /\ SvcRunning(old) IN
+            /\ cli' = Finished(cli, c, Last(IF ~has THEN "none" ELSE IF (alive = ("D4" \notin Dev)) THEN "true" ELSE "false", 0, 0, old))
+            /\ hst' = Log(IF ~has THEN "none" ELSE IF (alive = ("D4" \notin Dev)) THEN "true" ELSE "false", old)
+            /\ UNCHANGED <<act, hnd, rsp, reg>>
+  /\ UNCHANGED <<tmr, now>>
+
+RegPingReady(c) == cli[c].m \in DOMAIN rsp /\ rsp[cli[c].m].st # "pending"
+RegPingReturn(c) ==
+  LET r == cli[c].ta  m == cli[c].m IN
+  /\ cli[c].stage = "regping" /\ RegPingReady(c)
+  /\ rsp[m].st = "val"                        \* (a failed ping trips the crate's debug_assert: not in the alphabet)
+  /\ reg' = [reg EXCEPT !.lock = "free"]
+  /\ rsp' = [y \in DOMAIN rsp \ {m} |-> rsp[y]]
+  /\ hnd' = IF cli[c].op = "setup" THEN hnd ELSE NewH(hnd, cli[c].arg.nh, r, c)
+  /\ cli' = Finished(cli, c, Last("ok", 0, 0, r))
+  /\ UNCHANGED <<act, tmr, now, hst>>
+
+\* try_from_registry (service.rs:120-129): try_read, no waiting
+TryFromRegistry(c, o) ==
+  LET T == o.ty  has == T \in DOMAIN reg.ent
+      ok == reg.lock = "free" /\ has /\ SvcRunning(reg.ent[T])
+  IN
+  /\ CanIssue(c) /\ o.op = "try_from_registry"
+  /\ hnd' = IF ok THEN NewH(hnd, o.nh, reg.ent[T], c) ELSE hnd
+  /\ cli' = Instant(c, o, Mid(c), Last(IF ok THEN "ok" ELSE "none", 0, 0, IF has THEN reg.ent[T] ELSE "none"))
+  /\ hst' = [hst EXCEPT !.regops = @ \cup {<<"try_from_registry", T, IF ok THEN "hit" ELSE "none", IF has THEN reg.ent[T] ELSE "none",
+                                             IF has THEN reg.ent[T] ELSE "none", IF has THEN act[reg.ent[T]].notif = "armed" ELSE FALSE>>}]
+  /\ UNCHANGED <<act, rsp, tmr, reg, now>>
+
 \* ---- scheduling points and sleeping of the client itself
 ClientSleep(c, o) ==
   /\ CanIssue(c) /\ o.op = "sleep"
@@ -419,16 +524,18 @@ ClientYield(c, o) ==
 Issue(c, o) ==
   \/ Spawn(c, o) \/ SubmitForce(c, o) \/ SubmitWait(c, o) \/ AwaitBegin(c, o) \/ Query(c, o)
   \/ Convert(c, o) \/ Upgrade(c, o) \/ DropH(c, o) \/ Give(c, o) \/ Detach(c, o) \/ JoinBegin(c, o)
-  \/ ClientSleep(c, o) \/ ClientYield(c, o)
+  \/ ClientSleep(c, o) \/ ClientYield(c, o) \/ RegIssue(c, o) \/ TryFromRegistry(c, o)
 
 \* continuation steps of a pending operation
-ClientCont(c) == Flushed(c) \/ RespReturn(c) \/ AwaitReturn(c) \/ JoinReturn(c) \/ ClientWake(c)
+ClientCont(c) == Flushed(c) \/ RespReturn(c) \/ AwaitReturn(c) \/ JoinReturn(c) \/ ClientWake(c) \/ RegBody(c) \/ RegPingReturn(c)
 ClientContEnabled(c) ==
   CASE cli[c].stage = "flush" -> FlushReady(c)
     [] cli[c].stage = "resp"  -> RespReady(c)
     [] cli[c].stage = "await" -> AwaitReady(c)
     [] cli[c].stage = "join"  -> JoinReady(c)
     [] cli[c].stage = "sleep" -> SleepReady(c)
+    [] cli[c].stage = "reglock" -> RegLockFree(c)
+    [] cli[c].stage = "regping" -> RegPingReady(c)
     [] OTHER -> FALSE
 
 -----------------------------------------------------------------------------
@@ -749,7 +856,7 @@ IsYieldStep(a) == InScript(a) /\ ~ScriptDone(a) /\ CurEff(a).e = "yield"
 Pick(t)  == cur = None /\ cur' = t /\ yl' = FALSE /\ UNCHANGED sys
 RunLoop(a) == /\ cur = a /\ ~yl /\ LoopStep(a) /\ cur' = cur
               /\ yl' = (IsYieldStep(a) /\ act'[a].pc = act[a].pc /\ act'[a].ip = act[a].ip + 1)
-RunIssue(c, o) == cur = c /\ ~yl /\ Issue(c, o) /\ cur' = cur /\ yl' = (o.op = "yield")
+RunIssue(c, o) == cur = c /\ ~yl /\ Issue(c, o) /\ cur' = cur /\ yl' = (o.op = "yield" \/ o.op \in RegOps)
 RunCont(c) == cur = c /\ ~yl /\ ClientCont(c) /\ UNCHANGED <<cur, yl>>
 RunTimer(i) == cur = i /\ ~yl /\ TimerStep(i) /\ UNCHANGED <<cur, yl>>
 
